@@ -69,6 +69,30 @@ def native_replay(shard, args, timeout=120):
         return {'outcome': 'error', 'detail': (proc.stdout + proc.stderr)[-1000:]}
 
 
+def _single_byte_harness(shard):
+    import inspect  # pylint: disable=import-outside-toplevel
+    if shard.kind != 'symbolic':
+        return False
+    try:
+        fn = getattr(importlib.import_module(shard.module), shard.fn)
+        return list(inspect.signature(fn).parameters) == ['val']
+    except Exception:  # pylint: disable=broad-except
+        return False
+
+
+def native_sweep(shards, timeout=1800):
+    payload = json.dumps({'shards': [shard.as_dict() for shard in shards]})
+    proc = subprocess.run(
+        [sys.executable, '-m', 'symcheck.replay', '--sweep'], input=payload, capture_output=True, text=True,
+        timeout=timeout, cwd=VERIF, check=False,
+    )
+    try:
+        return json.loads(proc.stdout.strip().splitlines()[-1])
+    except (IndexError, ValueError):
+        _log('native sweep failed: %s' % (proc.stdout + proc.stderr)[-600:])
+        return [(shard.label, 0, []) for shard in shards]
+
+
 def write_replay(prop, shard, args, replay):
     digest = hashlib.sha1(json.dumps([shard.label, encode_args(args)], sort_keys=True).encode()).hexdigest()[:10]
     directory = os.path.join(VERIF, 'replays', prop)
@@ -164,6 +188,34 @@ def check_property(prop, tier, seed, only=None):  # pylint: disable=too-many-loc
                     unreproduced.append((label, outcome[1]))
                 else:
                     harness_errors.append((label, outcome[1]))
+
+    # fallback for single-byte shards the engine left undecided (budget, or a counterexample that is an artefact of
+    # its library models): the byte has 256 values, so the same harness is run natively on all of them.  This is
+    # enumeration, not a solver result - it is reported separately and never turns the shard into CONFIRMED - but a
+    # defect must not hide behind a modelling gap of the engine.
+    undecided = [row for row in rows if row['verdict'] in ('INCONCLUSIVE', 'NOT-REPRODUCED')]
+    sweepable = []
+    for row in undecided:
+        shard = by_label.get(row['shard']) or next((s for s in reruns if s.label == row['shard']), None)
+        if shard is not None and _single_byte_harness(shard):
+            sweepable.append((row, shard))
+    if sweepable:
+        _log('[%s] native sweep of %d undecided single-byte shards' % (prop, len(sweepable)))
+        for (row, shard), (_, ran, failing) in zip(sweepable, native_sweep([shard for _, shard in sweepable])):
+            row['native_sweep'] = {'values_run': ran, 'failing': [item[0] for item in failing]}
+            for val, replay in failing[:1]:
+                if replay.get('outcome') == 'exception' and not (replay.get('site') or [None, None])[1]:
+                    harness_errors.append((shard.label, 'native sweep: exception raised by the harness, not by /repo: %s'
+                                           % replay.get('trace', '')[-600:]))
+                    continue
+                match = findings.match(known, shard, {'val': val}, replay)
+                if match is not None:
+                    row['known_finding'] = match['id']
+                    known_hits.append({'what': match['what'], 'id': match['id'], 'args': {'val': val}})
+                    continue
+                path = write_replay(prop, shard, {'val': val}, replay)
+                violations.append({'replay': path, 'shard': shard.label, 'summary': '%s (native sweep) args=%r -> %s' % (
+                    shard.label, {'val': val}, json.dumps(replay)[:600])})
 
     # a counterexample that the real code does not reproduce is a gap of the engine's library models (never a
     # violation): the shard is inconclusive.  More than a handful means the harness or the layer is wrong.
